@@ -21,9 +21,9 @@ RULE = ('random prior rankings over 1-4 atoms (also all-zero) x 1-4 revision con
 ASSUMPTIONS = ['existence of parameters when None is returned is decided inside the box {0..3}^k (k free parameters, k <= 6)',
                'a free gamma+ that does not occur in the returned dict is read as 0 (it is unconstrained)']
 TRUSTED = []
-FLOOR = {'quick': 300, 'thorough': 3000}
+FLOOR = {'quick': 1200, 'thorough': 12000}
 BUDGET = {'quick': 110, 'thorough': 1500}
-N = {'quick': 900, 'thorough': 12000}
+N = {'quick': 4000, 'thorough': 40000}
 REQUIRED = {'quick': {'revisions_returning_parameters': 300, 'revisions_returning_none': 30, 'compilations_compared': 300,
                       'history_steps': 500, 'pareto_minimality_checked': 80},
             'thorough': {'revisions_returning_parameters': 3000, 'revisions_returning_none': 300,
@@ -205,6 +205,12 @@ def run_case(case):
     modetag = 'gamma+%s%s%s' % ('=0' if gpz else '-free', ',fixed-gamma-' if fgm else '', ',fixed-gamma+' if fgp else '')
     desc.update(gamma_plus_zero=gpz, fixed_gamma_minus=fgm, fixed_gamma_plus=fgp, incremental_model=use_model)
     world_cl, tv, tf = classify(sig, cbi)
+    # the recorded finding (fixed values not substituted inside the per-world sums) can only manifest when
+    # a fixed index occurs as an OTHER index in some world's triple, i.e. some world verifies/falsifies a
+    # fixed conditional together with another one; otherwise the mode tag says so and nothing is masked
+    fixed_idx = set(fgm) | set(fgp)
+    if fixed_idx and not any((acc | rej) & fixed_idx and len(acc | rej) >= 2 for acc, rej in world_cl.values()):
+        modetag += ',fixed-index-isolated'
 
     def revised(gm, gp):
         return {w: rw[w] + sum(gp[i] for i in acc) + sum(gm[i] for i in rej) for w, (acc, rej) in world_cl.items()}
